@@ -20,7 +20,7 @@ CHECKS["C03"] = dict(
     text="For every LHS-shape x some/all x operator x RHS-class combination (exhaustive over the listed classes) and for random "
          "clauses on random documents, 6-9 spellings of the negated/un-negated clause are evaluated together by the real "
          "evaluator; the monitor asserts prefix-not == operator-not (all spellings), double negation == original, flip on "
-         "single comparable values, flip for `in` with right-hand lists taken from the document (query, variable, `[*]`), order inverses, the named-rule negation table and the same table for negated parameterised calls "
+         "single comparable values, flip for `in` with right-hand lists taken from the document (query, variable, `[*]`), order inverses, the same laws with inline function calls on the right-hand side, the named-rule negation table and the same table for negated parameterised calls "
          "(`not p(args)` in rule bodies, when conditions, when blocks and `or` lines, with and without custom message).",
     note="Trusts the generator's model-based decision that a query selects exactly one comparable value (plain key paths only). "
          "Needs no reference semantics.",
@@ -30,7 +30,7 @@ CHECKS["C02"] = dict(
     technique="runtime monitoring: offline checker over the recorded evaluation-record tree + online hook assertions on record open/close",
     text="All CNF shapes up to 3x3 with leaves forced to PASS/FAIL/SKIP are evaluated at 9 composition sites (thorough: all ~490k; quick: "
          "all shapes with <=2 lines plus a sample) and random programs with type blocks, parameterised rules, nested when/blocks are "
-         "evaluated on random documents. Each emitted EventRecord tree is checked node by node against the property's composition "
+         "evaluated on random documents; every status assignment of 1-3 definitions of one rule name x 5 ways of naming it (clause, not, when, when !, or line) x user before/after is checked against `the first definition that is not SKIP decides`. Each emitted EventRecord tree is checked node by node against the property's composition "
          "rules, the rule status against the formula over the forced leaves, the hook stream for balanced records, and the root "
          "status against the structured report and the exit code of `validate --print-json`; with 2-3 data files in one run every root of the printed list is checked against its own data file and the exit code against the worst of them.",
     note="Trusts the leaf gadgets to have the intended status (itself asserted through the tree). Filter records are treated as "
@@ -53,14 +53,14 @@ CHECKS["C15"] = dict(
          "shadowing, a key of a query taken from a variable (`a.%k`), inlining of parameterised-rule calls - and both programs are evaluated on the same document; the rule->status maps "
          "must agree. Divergences are classified (hypothesis program for the `[*]`-after-variable quirk, per-line attribution for inlining) "
          "so that known findings have narrow signatures. Exhaustive key-interpolation matrix (12 clause forms x 3 polarities x 12 value classes x file/rule/block scope), call-volume check "
-         "(3/70/200 elements x call per element, nested, 90 sequential, negated; twice per process) and idle-argument check (rewriting the argument of an unread parameter as `some q` or a literal); block-let matrix (a `let` inside rule / when / type / query blocks and filters, bound to literal, query, function result, vs the in-place form).",
+         "(3/70/200 elements x call per element, nested, 90 sequential, negated; twice per process) and idle-argument check (rewriting the argument of an unread parameter as `some q` or a literal); key-list matrix (a list of key names in a variable, literal / query-bound / passed as parameter, some keys absent, vs the keys written one by one); block-let matrix (a `let` inside rule / when / type / query blocks and filters, bound to literal, query, function result, vs the in-place form).",
     note="Skips the documented exception (`q empty` -> `%v empty`). Trusts the printer. Known findings: three classes in known_findings.json.",
     ref="DESIGN.md §6 P-C15")
 
 CHECKS["C14"] = dict(
     technique="runtime monitoring: differential monitor over parse-tree output of systematically re-spelled programs",
     text="Each generated program is pretty-printed canonically and with every single-occurrence flip of every documented token class "
-         "(keyword case, not/NOT/!, or/OR/|OR|, =/:=, quotes, .n/[n], leading this., indentation, blank lines, trailing spaces, line breaks in "
+         "(keyword case, not/NOT/!, or/OR/|OR|, =/:=, quotes, .n/[n], leading this., several blanks or a tab after not/NOT and between the tokens of a clause, indentation, blank lines, trailing spaces, line breaks in "
          "lists/filters, # comments) plus random combinations; `parse-tree --print-json` of variant and canonical text must be the same AST "
          "(locations removed), sampled verdicts must agree; type blocks are compared with their desugaring and file-level clauses with `rule default` by verdict; an explicit-`this` matrix (clause forms x block / filter / when contexts, with and without `this.`) is compared by verdict on documents that make both outcomes occur.",
     note="A variant that fails to parse is a violation. Documented restrictions (reference ends its line) are never varied. Leading `this` is normalised in the AST and checked by verdict.",
@@ -69,7 +69,7 @@ CHECKS["C14"] = dict(
 CHECKS["C06"] = dict(
     technique="runtime monitoring: real-process exit-status monitor with a scenario classifier as oracle",
     text="The shipped binary is run as real processes on scenarios built from finite classes (1..3 rules files from 8 kinds (incl. rules whose `when` guard decides by data) x 1..3 data "
-         "files from 6 kinds (incl. documents no rule applies to; every single-rules-file combination always runs), every position, x 12 invocation modes incl. payload, stdin, directories, structured json/yaml/junit/sarif; "
+         "files from 6 kinds (incl. documents no rule applies to; every single-rules-file combination always runs), every position, x 12 invocation modes incl. payload, stdin, directories, explicit files mixed with directories in one option list (both orders), structured json/yaml/junit/sarif; "
          "`test` scenarios x 4 formats x 4 layouts - files, directory, directory with 2-3 rules files and the scenario file at each position, --test-data directory with the scenario file in a sub-directory); the exit status must fall in the class a 30-line classifier derives from what the "
          "generator built (per-pair verdicts confirmed by singleton library runs); in-process results must agree with process exits; "
          "missing paths and unusable option combinations must give an error exit, never 0 or 19; re-runs under NO_COLOR / CLICOLOR_FORCE / TERM settings must keep the exit status.",
@@ -80,7 +80,7 @@ CHECKS["C06"] = dict(
 CHECKS["C05"] = dict(
     technique="runtime monitoring: repeated-execution differential monitor (fresh processes, rotated environments, in-process repetition)",
     text="27 command/output modes (validate structured json/yaml/sarif/junit, plain json/yaml, print-json, console variants, parse-tree, test in "
-         "4 renderings, rulegen, and 4 modes of function rules: parse_epoch over 12 timestamp spellings incl. zone-less and DST-gap ones, case mapping, "
+         "4 renderings, rulegen (template with values and property names that differ only in letter case or type), and 4 modes of function rules: parse_epoch over 12 timestamp spellings incl. zone-less and DST-gap ones, case mapping, "
          "conversions, join/regex_replace; 2 console modes on Terraform-plan-shaped data; 3 modes writing to an --output file that held other content before) are each run 5 (quick) / 8 (thorough) times as fresh processes of the shipped binary - fresh hash seeds - under "
          "rotated TZ (tzdata names and POSIX strings)/LANG/HOME/COLUMNS/NO_COLOR/CLICOLOR_FORCE/RUST_BACKTRACE/cwd/pipe-vs-file, and payload modes 5 times inside one process; exit codes must be "
          "equal, structured output byte-identical (elapsed-time fields masked), console output equal as a multiset of lines; what a structured "
@@ -105,7 +105,7 @@ CHECKS["C07"] = dict(
          "function in verbose and report mode, incl. reports > 8 KiB) are parsed back by independent parsers (python json, PyYAML, xml.etree, "
          "regex) and must agree on rule->status, file status and exit code; YAML==JSON as data, SARIF result count == failing checks, JUnit marks/counters. Groups of 2-3 rules files (distinct names, or one base name in different directories) x 1-3 data files, half of them with an "
          "--input-parameters document, go through 13 configurations (files, payload; plain, structured) and must agree on the exit code and the per-pair verdicts; "
-         "documents and custom messages carry markup-significant characters (<, &, quotes).",
+         "documents and custom messages carry markup-significant characters (<, &, quotes); in multi-file JUnit output every testsuite's failures=/errors= must count its own cases and agree with that data file's structured status.",
     note="Console reporters show only what -S selects: containment there, equality for -S all. The Lambda handler itself cannot be linked; it is covered via run_checks with its argument pattern.",
     ref="DESIGN.md §6 P-C07")
 
@@ -113,14 +113,14 @@ CHECKS["C12"] = dict(
     technique="runtime monitoring: batch-vs-singleton differential monitor with hook-observed scope lifetimes",
     text="Batches of 1-3 rules files that share variable and rule names with different definitions x 2-4 documents differing exactly in the "
          "queried keys are validated as explicit files in several orders (plain and structured), as directories with -a and -m (explicit mtimes), "
-         "as payload lists (half of the batches with an --input-parameters document read by every rules file), as structured junit and sarif batches (per-data-file testsuite / result units vs the stand-alone run), with data files of one base name in different directories, and as multi-case `test` files; every (rules, data) pair's report must equal the report of the pair validated alone and "
+         "as payload lists (half of the batches with an --input-parameters document read by every rules file), as structured junit and sarif batches (per-data-file testsuite / result units vs the stand-alone run), with data files of one base name in different directories, and as multi-case `test` files; 30% of the batches make 24-40 parameterised-rule calls per pair (per-call bookkeeping must start afresh), a pair that only fails after other evaluations in the same process is a violation; every (rules, data) pair's report must equal the report of the pair validated alone and "
          "the exit status must be the maximum over the pairs (40% of the batches end with a rules file every document satisfies). verif-hooks events assert one root scope per pair and no memo hit before a miss in a scope.",
     note="Reports are compared after removing file names and line/column details. In structured mode compliant/not_applicable are name sets by design.",
     ref="DESIGN.md §6 P-C12")
 
 CHECKS["C16"] = dict(
     technique="runtime monitoring: differential monitor between the `test` and `validate` front ends over enumerated expectation assignments",
-    text="Generated rules files (45% with a doubly defined rule name, 40% with file-level clauses = the `default` rule) x 1-4 documents x all 3^k expectation assignments (k<=3) incl. rules without "
+    text="Generated rules files (45% with a doubly defined rule name, half with rules that name other rules, 40% with file-level clauses = the `default` rule) x 1-4 documents x all 3^k expectation assignments (k<=3) incl. rules without "
          "expectation are run through `test` in plain/json/yaml/junit rendering and files/--dir layout (tests files under every extension the directory walk accepts, -a/-m ordering); each (case, rule) outcome (met / unmet / no "
          "expectation), the evaluated statuses of unmet expectations and the exit code 0/7 must follow from the statuses `validate --print-json` "
          "assigns to that rule on the same input, and all renderings must carry the same relation; half of the runs have a second test-data file (-t <dir> / --dir); a template written with 14 short-form tags is used as test input with "
@@ -143,7 +143,7 @@ CHECKS["C19"] = dict(
     text="Generated CloudFormation-shaped templates (1-5 resources over 1-3 types; plain and 17 classes of odd strings, ints incl. 2^53+1 and i64::MIN, floats (fraction / integral / exponent), bools, nested "
          "lists/maps; repeated, re-typed (50 vs \"50\") and distinct values; uniform and non-uniform property sets) are fed to `rulegen` as a real process (twice); unless an "
          "error is reported the output must parse to exactly one rule per resource type with properties (type names incl. `-` and `@`), the --output file (absent, empty, longer, prefixed before) must equal stdout, every rule must PASS on the source "
-         "template, and the rule of a type must FAIL after one scalar property value is changed to an unseen value.",
+         "template, and the rule of a type must FAIL after one scalar property value is changed to an unseen value; YAML templates written with 19 short-form tag spellings (scalar, sequence and mapping tags) must be refused or self-validate.",
     note="A rulegen crash is C08's concern (inconclusive here). Failing self-validations are attributed to value classes so that the two known findings stay narrow.",
     ref="DESIGN.md §6 P-C19")
 
@@ -171,7 +171,7 @@ CHECKS["C11"] = dict(
 
 CHECKS["C10"] = dict(
     technique="runtime monitoring: independent pointer-walk and source-position monitor over structured reports and hooked loader dumps",
-    text="Documents (incl. random doubles, 64-bit integers, YAML literal/folded block scalars, ASCII-escaped JSON strings; CRLF, leading blank lines, tab-indented JSON) written by a position-tracking emitter in 4 layouts are validated against rules that fail on every node (one clause per scalar, "
+    text="Documents (incl. random doubles, 64-bit integers, YAML literal/folded block scalars, ASCII-escaped JSON strings, JSON members shadowed by an earlier member of the same key; CRLF, leading blank lines, tab-indented JSON) written by a position-tracking emitter in 4 layouts are validated against rules that fail on every node (one clause per scalar, "
          "unresolved probes below every map/list/scalar incl. keys taken from variables (`a.%k`), `in`, list iteration, filter-then-[*] on lists of lists and query right-hand sides); every reported from/to/traversed_to {path, "
          "value} is resolved in the model document by an independent walk and must yield exactly that value, unresolved reports must stop at the "
          "deepest existing point of the queried path, and every [L,C] in messages - and, through the verif-hooks loader probe, of every scalar node - "
